@@ -45,6 +45,8 @@ type hcase struct {
 	TS      []uint64 `json:"ts"`
 	// Forged[i]: frame i is signed with another key (must be refused and must not move the window)
 	Forged []bool `json:"forged,omitempty"`
+	// Link[i]: link id carried by frame i (default 4); the window is per reader, not per link id
+	Link []byte `json:"link,omitempty"`
 }
 
 var otherKey = func() []byte {
@@ -58,7 +60,11 @@ func signedFrame(ts uint64, seq byte, withDialect bool) []byte {
 }
 
 func signedFrameK(ts uint64, seq byte, withDialect bool, signKey []byte) []byte {
-	f := &ref.Frame{V2: true, Incompat: 1, Seq: seq, Sys: 7, Comp: 9, ID: 300000, Payload: []byte{1, 2, 3}, LinkID: 4, Timestamp: ts}
+	return signedFrameKL(ts, seq, withDialect, signKey, 4)
+}
+
+func signedFrameKL(ts uint64, seq byte, withDialect bool, signKey []byte, link byte) []byte {
+	f := &ref.Frame{V2: true, Incompat: 1, Seq: seq, Sys: 7, Comp: 9, ID: 300000, Payload: []byte{1, 2, 3}, LinkID: link, Timestamp: ts}
 	f.Checksum = 0x1234
 	if withDialect {
 		// HEARTBEAT of the minimal dialect: custom_mode u32, type, autopilot, base_mode, status, version
@@ -82,11 +88,15 @@ var drw = func() *dialect.ReadWriter {
 func runHistory(c hcase) (string, int) {
 	var stream bytes.Buffer
 	for i, ts := range c.TS {
+		link := byte(4)
+		if i < len(c.Link) {
+			link = c.Link[i]
+		}
 		if i < len(c.Forged) && c.Forged[i] {
-			stream.Write(signedFrameK(ts, byte(i), c.Dialect, otherKey))
+			stream.Write(signedFrameKL(ts, byte(i), c.Dialect, otherKey, link))
 			continue
 		}
-		stream.Write(signedFrame(ts, byte(i), c.Dialect))
+		stream.Write(signedFrameKL(ts, byte(i), c.Dialect, key, link))
 	}
 	r := &frame.Reader{ByteReader: &stream, InKey: frame.NewV2Key(key)}
 	if c.Dialect {
@@ -134,7 +144,7 @@ func main() {
 	r := bx.Start("C07", "model_checking")
 	r.Replayer = func(class string, raw json.RawMessage) (bool, string) {
 		switch class {
-		case "window", "window_forged":
+		case "window", "window_forged", "window_links":
 			var c hcase
 			json.Unmarshal(raw, &c)
 			d, _ := runHistory(c)
@@ -240,6 +250,37 @@ func main() {
 			hist.Add(1)
 			if d != "" {
 				r.Fail("window_forged", fmt.Sprint(c.TS, c.Forged), c, d)
+			}
+		})
+	}
+
+	// frames carrying different link ids through one reader: the window is the reader's
+	{
+		n := len(alphabet)
+		total := n * n * n * 8
+		bx.ParDo(total, func(idx int) {
+			c := hcase{TS: make([]uint64, 3), Link: make([]byte, 3)}
+			x := idx
+			mixed := false
+			for i := 0; i < 3; i++ {
+				c.Link[i] = []byte{4, 200}[x%2]
+				if c.Link[i] != c.Link[0] {
+					mixed = true
+				}
+				x /= 2
+			}
+			if !mixed {
+				return
+			}
+			for i := 0; i < 3; i++ {
+				c.TS[i] = alphabet[x%n]
+				x /= n
+			}
+			d, steps := runHistory(c)
+			transitions.Add(steps)
+			hist.Add(1)
+			if d != "" {
+				r.Fail("window_links", fmt.Sprint(c.TS, c.Link), c, d)
 			}
 		})
 	}
